@@ -153,6 +153,15 @@ def check(ctx):
     from . import c18
     wired = [c18.wireall_episode(ctx.rng) for _ in range(600 if ctx.thorough() else 120)]
     d.check(wired, oracle=c18.wireall_oracle, label="pool-wiring")
+    # the pool of a balancer that is stopped — with and without active health checks, one pooled connection whose Close
+    # reports an error: every pooled connection is closed when Stop has returned
+    stops = [["stop %d %d %d %d %d" % (nb, 0, 100, st, pool)] for nb, st, pool in ((1, 1, 2), (2, 1, 1), (2, 2, 2), (8, 1, 2))]
+
+    def orc_stop(ep, outs):
+        o = outs[0] if outs else ""
+        return [] if o.startswith("stop returned within=true") and "pooledClosed=true" in o else [
+            "the balancer was stopped and a pooled connection is still open (or Stop did not return): %s -> %s" % (ep[0], o)]
+    d.check(stops, oracle=orc_stop, label="pool-stop")
     # the pool under real concurrency: double hand-out / leak detection (search; also run under -race by C12)
     from . import c12
     import re as _re
